@@ -80,6 +80,8 @@ def open_lib(fmt, path, spec, reader='Memmap'):
     R = getattr(mod, fmt)
     if fmt == 'uamiv' and spec.get('little_endian') and reader == 'Memmap':
         return R(path, endian='little')
+    if fmt == 'uamiv' and spec.get('open_mode') and reader == 'Memmap':
+        return R(path, mode=spec['open_mode'])
     if fmt in ('uamiv', 'lateral_boundary'):
         return R(path)
     return R(path, spec['ny'], spec['nx'])
